@@ -525,7 +525,8 @@ func runC06R3(c *Ctx) {
 	if less == nil {
 		// look for edfEntryLess style function
 		for _, f := range c.PkgFuncs(pkg) {
-			if strings.Contains(strings.ToLower(f.Name()), "less") {
+			// a declared function, not a closure inside one (`edfEntryLess$1` is whatever closure edfEntryLess contains)
+			if strings.Contains(strings.ToLower(f.Name()), "less") && f.Parent() == nil {
 				less = f
 			}
 		}
